@@ -210,13 +210,18 @@ void alloc_begin_run(int mode, uint64_t garbage_seed) {
 const AllocStats& alloc_stats() { return g_stats; }
 
 bool alloc_active() {
+  // Under valgrind the tool replaces operator new/delete itself (by address), so this allocator never sees the
+  // library's requests.  Detect that through function pointers to the real entry points: a new/delete expression
+  // in this translation unit could be inlined and bypass the redirection.
   static int active = -1;
   if (active < 0) {
+    void* (*volatile pnew)(size_t) = static_cast<void* (*)(size_t)>(&::operator new);
+    void (*volatile pdel)(void*) = static_cast<void (*)(void*)>(&::operator delete);
     unsigned long long before = g_stats.allocs;
     {
       LibDomain d;
-      char* volatile p = new char[24];
-      delete[] p;
+      void* p = pnew(24);
+      pdel(p);
     }
     active = g_stats.allocs != before ? 1 : 0;
   }
